@@ -334,6 +334,7 @@ def run(chk, prog, tier):
     check_fast_subset(chk, prog)
     check_offsets_monotone(chk, prog)
     check_stale_count(chk, prog)
+    check_stale_counted(chk, prog)
     check_notify(chk, prog)
     check_clear_resets(chk, prog)
     from . import join_common, scan_common
@@ -513,6 +514,110 @@ def check_stale_count(chk, prog):
                       f"the stale-row counter is advanced by `was already stale` instead of `newly stale` (line {bad}): stale_rows stays 0 after removals, observers keep their no-stale fast path and return removed rows",
                       c.loc)
     chk.floor(R, n, 2, "set_stale results feeding a stale counter (Rows::set_stale, parallel_delete)")
+
+
+def check_stale_counted(chk, prog):
+    """every row staled behind the table's back (ReadHandle/RowBuffer::set_stale_shared bypasses Rows::set_stale, which keeps
+    stale_rows itself) is added to a counter that reaches stale_rows"""
+    R = chk.rule("R-STALE-COUNTED", "every call of set_stale_shared (which stales a row without touching Rows.stale_rows) either feeds its `was stale` result into a stale counter "
+                 "(R-STALE-COUNT decides the polarity) or is followed, on every path to the return of the function/closure, by an increment of a counter local (initialised to 0, "
+                 "incremented by addition, flowing into the return value or into a stale_rows field). Otherwise stale_rows undercounts and observers keep the no-stale fast path")
+    from ..facts import rv_operands
+    n = 0
+    for f in prog.lib_fns(["egglog_core_relations"]):
+        sites = [c for c in f.calls if c.p.endswith("::set_stale_shared")]
+        if not sites or f.name.endswith("::set_stale_shared"):
+            continue
+        # counters of f
+        counters = {}
+        for i, j, s in f.assigns():
+            rv = s[2]
+            if rv[0] == "bin" and rv[1] in ("Add", "AddWithOverflow", "AddUnchecked") and not s[1][1]:
+                # tmp = Add(L, x); later L = tmp.0  — find L as the left operand local with a const-0 initialiser
+                for o in rv_operands(rv)[:1]:
+                    if o[0] in ("c", "m") and not o[1][1]:
+                        L = o[1][0]
+                        inits = [d for d in f.defs.get(L, []) if d[3] == "a" and d[4][0] == "use" and d[4][1][0] == "k" and d[4][1][1].startswith("0") and not d[2]]
+                        if inits and f.locals[L] == "usize":
+                            counters.setdefault(L, set()).add(i)
+        # keep those flowing to the return value or to a stale_rows field
+        ret_locals = set()
+        for a in f.origins([0, []]):
+            pass
+        live_counters = {}
+        for L, blocks in counters.items():
+            flows = False
+            # direct: _0 = L / _0 = (.., L, ..)
+            for (bb, idx, dproj, kind, payload) in f.defs.get(0, []):
+                if kind == "a":
+                    for o in rv_operands(payload):
+                        if o[0] in ("c", "m") and not o[1][1]:
+                            src = o[1][0]
+                            # follow copies back
+                            seen = set()
+                            work = [src]
+                            while work:
+                                x = work.pop()
+                                if x in seen:
+                                    continue
+                                seen.add(x)
+                                if x == L:
+                                    flows = True
+                                for d in f.defs.get(x, []):
+                                    if d[3] == "a" and d[4][0] == "use" and d[4][1][0] in ("c", "m") and not d[4][1][1][1]:
+                                        work.append(d[4][1][1][0])
+            for i, j, s2 in f.assigns():
+                names = [e[2] for e in s2[1][1] if not isinstance(e, str) and e[0] == "f"]
+                if "stale_rows" in names:
+                    flows = flows or any(o[0] in ("c", "m") and o[1][0] == L for o in rv_operands(s2[2]))
+            if flows:
+                live_counters[L] = blocks
+        inc_blocks = set().union(*live_counters.values()) if live_counters else set()
+        for c in sites:
+            n += 1
+            # (1) result feeds an addition (possibly through `!` and a cast)
+            feeds = False
+            work = [c.dest[0]] if not c.dest[1] else []
+            seen = set()
+            while work:
+                l = work.pop()
+                if l in seen:
+                    continue
+                seen.add(l)
+                for i, j, s2 in f.assigns():
+                    if s2[1][1]:
+                        continue
+                    ops = [o for o in rv_operands(s2[2]) if o[0] in ("c", "m") and o[1][0] == l and not o[1][1]]
+                    if not ops:
+                        continue
+                    if s2[2][0] in ("use", "cast") or (s2[2][0] == "un" and s2[2][1] == "Not"):
+                        work.append(s2[1][0])
+                    elif s2[2][0] == "bin" and s2[2][1] in ("Add", "AddWithOverflow", "AddUnchecked"):
+                        feeds = True
+            ok = feeds
+            if not ok:
+                bad = False
+                seenb = set()
+                stack = [c.target] if c.target is not None else []
+                while stack:
+                    x = stack.pop()
+                    if x in seenb or x in inc_blocks:
+                        continue
+                    seenb.add(x)
+                    if f.term(x)[0] == "ret":
+                        bad = True
+                        break
+                    stack.extend(f.succ[x])
+                ok = bool(inc_blocks) and not bad
+            root = f.root or f.name
+            arm = ""
+            for g in guards(f, c.bb):
+                if "truth" in g and g["desc"][0] == "call":
+                    arm = ":merge-changed" if g["truth"] else ":merge-unchanged"
+            chk.judge(ok, R, f"{root}:set_stale_shared{arm}{'@closure' if f.kind == 'closure' else ''}", "the staled row is counted towards stale_rows",
+                      "a row is marked stale through the shared handle on a path that never advances the stale counter: stale_rows undercounts, and once it reads 0 "
+                      "observers take the raw fast path and return superseded rows", c.loc)
+    chk.floor(R, n, 3, "set_stale_shared call sites (parallel_delete, parallel_insert x2)")
 
 
 def rv_ops(rv):
